@@ -378,6 +378,9 @@ pub fn g_ep(e: &EpSpec) -> String {
 /// The same path in another legal spelling of the request target: the router
 /// is handed `uri.path()`, so the answer must not depend on it.
 fn wire_target(p: &str, k: usize) -> String {
+    if p == "*" {
+        return p.to_string(); // asterisk-form: OPTIONS only
+    }
     match k % 8 {
         1 => format!("http://localhost{}", p),
         2 => format!("{}?a=b&c=%2F", p),
@@ -388,7 +391,7 @@ fn wire_target(p: &str, k: usize) -> String {
 }
 
 fn wire_safe(p: &str) -> bool {
-    p.bytes().all(|b| b.is_ascii_alphanumeric() || b"/%._~-".contains(&b))
+    p == "*" || p.bytes().all(|b| b.is_ascii_alphanumeric() || b"/%._~-".contains(&b))
 }
 
 /// The same grid through a real server: `http_request_handle` resolves the
@@ -987,6 +990,28 @@ fn gen_paths(rng: &mut Rng, tpls: &[Vec<Seg>], n: usize) -> Vec<String> {
             out.push(p);
         }
     }
+    // for a few paths of two or more segments: the same segments JOINED into
+    // one segment by an escaped separator (a unit separator, NUL, newline,
+    // comma, semicolon, bar, colon, blank, tab, and the escaped slash itself) —
+    // one segment "a<sep>b" is not the two segments "a", "b", whatever a cache
+    // key or a log line makes of them — requested right after the split form
+    const SEPS: &[&str] = &["%1F", "%00", "%0A", "%2C", "%3B", "%7C", "%3A", "%20", "%09", "%2F", "%1f", "%2f"];
+    let multi: Vec<String> = out
+        .iter()
+        .filter(|p| p.matches('/').count() >= 2 && !p.contains("//") && !p.ends_with('/') && p.is_ascii())
+        .cloned()
+        .collect();
+    for p in multi.iter().take(3) {
+        let sep = *rng.pick(SEPS);
+        // join the last two segments
+        if let Some(i) = p.rfind('/') {
+            let joined = format!("{}{}{}", &p[..i], sep, &p[i + 1..]);
+            if !out.contains(&joined) {
+                out.push(p.clone()); // the split form once more, directly before
+                out.push(joined);
+            }
+        }
+    }
     out
 }
 
@@ -1311,6 +1336,13 @@ pub fn run(opts: &Opts, replay: Option<Vec<serde_json::Value>>, out: &mut dyn Wr
     for c in &cases {
         if live {
             if let Some(l) = exec_live(c) {
+                emit(out, &l);
+            }
+            // the asterisk-form target (OPTIONS * HTTP/1.1): its path is the
+            // one segment "*", never the root
+            let star = Case { paths: vec!["*".to_string()], methods: vec!["OPTIONS".to_string()], ..c.clone() };
+            if let Some(mut l) = exec_live(&star) {
+                l.tags.push("asterisk-form".to_string());
                 emit(out, &l);
             }
         } else {
